@@ -192,6 +192,7 @@ _cst = contract("toasty.toast.create_single_tile")
 def _(c):
     c.cases(*CST_CASES)
     c.setup(cst_setup)
+    c.args(pos="Pos")
     c.requires("pos.n >= 0 and pos.x >= 0 and pos.y >= 0 and pos.x < pow2(pos.n) and pos.y < pow2(pos.n)", name="valid_position")
     c.raises("ValueError", when="pos.n == 0")
     # at the loop head: cur_n levels are done and `children` are the four tiles below the ancestor of pos at level cur_n
